@@ -26,8 +26,8 @@ def S():
 
 @st.composite
 def geometry(draw, nmin=8, nmax=128, maxnb=5):
-    n = draw(st.integers(nmin, nmax))
-    nb = draw(st.integers(1, maxnb))
+    n = gen.grid_size(draw, nmin, nmax, one_in=20)
+    nb = draw(st.integers(1, maxnb)) if n < 200 else draw(st.integers(1, 2))
     L = draw(st.sampled_from([4.0, 6.0, 8.0, 12.0]))
     sx = gen.f32(draw(st.floats(-2, 2))) if draw(st.booleans()) else 0.0
     sy = gen.f32(draw(st.floats(-2, 2))) if draw(st.booleans()) else 0.0
